@@ -56,7 +56,7 @@ func TestVerifRpcGuards(t *testing.T) {
 	}
 	for i, s := range mine {
 		s := s
-		vrt.Explore(vrt.Options{Name: "guards/rpc/" + s.name, Bound: bound, Prune: true, Budget: vrt.FairBudget(len(mine) - i)}, func(r *vrt.Run) {
+		vrt.Explore(vrt.Options{Name: "guards/rpc/" + s.name, Bound: bound, AutoAdvance: true, Prune: true, Budget: vrt.FairBudget(len(mine) - i)}, func(r *vrt.Run) {
 			finished := 0
 			fired := false
 			call := rpcChain(func(ctx context.Context, req interface{}) (interface{}, error) {
